@@ -1,0 +1,176 @@
+//go:build verif
+
+package executor
+
+// Machine-checked contracts for the gocv verifier (/verif/DESIGN.md). Comments only.
+//
+// Ghost predicates (uninterpreted): parsedFrom(doc, text) - doc is the parse of text; validated(doc) - doc passed
+// validator.Validate against the schema. The query cache invariant is "every entry (key, doc) satisfies
+// parsedFrom(doc, key) && validated(doc)": Get may only return such entries, Add is only allowed for them.
+
+// ---------------------------------------------------------------- trusted: gqlparser, cache, user extensions
+//@ trusted github.com/vektah/gqlparser/v2/parser.ParseQueryWithTokenLimit(source, limit) (doc, err)
+//@   ensures err == nil ==> doc != nil && isParsedFrom(doc, source.Input)
+//@   ensures err != nil ==> isType(err, "*github.com/vektah/gqlparser/v2/gqlerror.Error")
+//@   nopanic
+//@   pure
+//@ trusted github.com/vektah/gqlparser/v2/validator.Validate(schema, doc, rules) (errs)
+//@   ensures len(errs) == 0 ==> isValidated(doc)
+//@   modifies nothing
+//@ trusted github.com/vektah/gqlparser/v2/validator.RemoveRule(name)
+//@   modifies nothing
+//@ trusted github.com/vektah/gqlparser/v2/validator.ReplaceRule(name, rule)
+//@   modifies nothing
+//@ trusted github.com/vektah/gqlparser/v2/validator.VariableValues(schema, op, variables) (vars, err)
+//@   ensures err != nil ==> isType(err, "*github.com/vektah/gqlparser/v2/gqlerror.Error")
+//@   pure
+//@ trusted (github.com/99designs/gqlgen/graphql.Cache[*github.com/vektah/gqlparser/v2/ast.QueryDocument]).Get(ctx, key) (doc, ok)
+//@   ensures ok ==> doc != nil && isParsedFrom(doc, key) && isValidated(doc)
+//@   pure
+//@ trusted (github.com/99designs/gqlgen/graphql.Cache[*github.com/vektah/gqlparser/v2/ast.QueryDocument]).Add(ctx, key, value)
+//@   requires value != nil && isParsedFrom(value, key) && isValidated(value)
+//@   pure
+//@ trusted (github.com/99designs/gqlgen/graphql.ExecutableSchema).Schema() (s)
+//@   pure
+//@ trusted github.com/99designs/gqlgen/graphql/errcode.Set(err, value)
+//@   modifies Error.Extensions maps
+//@ trusted github.com/99designs/gqlgen/graphql.GetStartTime(ctx) (t)
+//@   pure
+//@ trusted github.com/99designs/gqlgen/graphql.WithResponseContext(ctx, p, r) (c)
+//@   pure
+//@ trusted github.com/99designs/gqlgen/graphql.AddError(ctx, err)
+//@   modifies nothing
+//@ trusted github.com/99designs/gqlgen/graphql.GetErrors(ctx) (errs)
+//@   pure
+//@ trusted github.com/99designs/gqlgen/graphql.GetExtensions(ctx) (m)
+//@   pure
+// User extensions. Assumption (DESIGN.md C03/C09): parameter mutators only touch the raw parameters, context
+// mutators leave the selected document and operation (Doc, OperationName, Operation) alone.
+//@ trusted (github.com/99designs/gqlgen/graphql.OperationParameterMutator).MutateOperationParameters(ctx, request) (err)
+//@   modifies RawParams.* maps
+//@ trusted (github.com/99designs/gqlgen/graphql.OperationContextMutator).MutateOperationContext(ctx, opCtx) (err)
+//@   modifies OperationContext.DisableIntrospection OperationContext.Variables OperationContext.Stats Stats.* maps
+//@ trusted field:github.com/99designs/gqlgen/graphql/executor.extensions.operationMiddleware(ctx, next) (h)
+//@ trusted field:github.com/99designs/gqlgen/graphql/executor.extensions.responseMiddleware(ctx, next) (r)
+
+// ---------------------------------------------------------------- parseQuery
+// C03: a document is only ever stored in the cache after validator.Validate returned no error for *that* document
+// and under the key it was parsed from; what is returned without errors is either such a cache entry or the document
+// just parsed and validated. C07: the cache key is the query text and nothing else (no request parameters in scope).
+//@ func (*Executor).parseQuery [C03,C07,C09]
+//@   requires e != nil && stats != nil
+//@   safe
+//@   modifies Stats.Parsing Stats.Validation Error.Extensions maps
+//@   at `e.queryCache.Get(ctx, query)` requires arg1 == query
+//@   at `e.queryCache.Add(ctx, query, doc)` requires arg1 == query
+//@   at `parser.ParseQueryWithTokenLimit(&ast.Source{Input: query}, e.parserTokenLimit)` requires arg0.Input == query
+//@   at `validator.Validate(e.es.Schema(), doc)` requires arg1 == doc
+//@   ensures len(res1) == 0 ==> res0 != nil && isParsedFrom(res0, query) && isValidated(res0)
+//@   ensures len(res1) != 0 ==> res0 == nil
+//@   ensures calls(Add) <= 1
+//@   ensures len(res1) != 0 ==> calls(Add) == 0
+
+// ---------------------------------------------------------------- CreateOperationContext
+// C03: no error list  ==>  every parameter mutator and every context mutator returned nil, the document was parsed
+// from the (possibly mutated) query text and validated, the operation was found by name, variables coerced.
+// An error list is never empty. (Refines the interface contract in graphql/verif_contracts.go.)
+//@ func (*Executor).CreateOperationContext [C03,C09]
+//@   requires e != nil && params != nil
+//@   safe
+//@   ghost rejected = false
+//@   ghost coerceFailed = false
+//@   at `p.MutateOperationParameters(ctx, params)` requires arg1 == params
+//@   at `p.MutateOperationParameters(ctx, params)` ghost rejected = rejected || callres0 != nil
+//@   at `p.MutateOperationContext(ctx, opCtx)` requires arg1 == opCtx
+//@   at `p.MutateOperationContext(ctx, opCtx)` ghost rejected = rejected || callres0 != nil
+//@   at `e.parseQuery(ctx, &opCtx.Stats, params.Query)` requires arg2 == params.Query
+//@   at `opCtx.Doc.Operations.ForName(params.OperationName)` requires arg0 == opCtx.OperationName
+//@   at `validator.VariableValues(e.es.Schema(), opCtx.Operation, params.Variables)` requires arg1 == opCtx.Operation
+//@   at `validator.VariableValues(e.es.Schema(), opCtx.Operation, params.Variables)` ghost coerceFailed = callres1 != nil
+//@   loop 1: invariant opCtx != nil && !rejected
+//@   loop 2: invariant opCtx != nil && !rejected && !coerceFailed && opCtx.Doc != nil && isValidated(opCtx.Doc) && opCtx.Operation != nil && opCtx.Operation == forName(opCtx.Doc.Operations, opCtx.OperationName)
+//@   ensures res0 != nil
+//@   ensures res1 == nil ==> !rejected && !coerceFailed
+//@   ensures res1 == nil ==> res0.Doc != nil && isValidated(res0.Doc) && res0.Operation != nil && res0.Operation == forName(res0.Doc.Operations, res0.OperationName)
+//@   ensures res1 != nil ==> len(res1) > 0
+//@   ensures calls(parseQuery) <= 1
+
+// ---------------------------------------------------------------- dispatch
+//@ func (*Executor).DispatchOperation [C03]
+//@   requires e != nil
+//@   safe
+//@   ensures calls(operationMiddleware) == 1
+//@ trusted (github.com/99designs/gqlgen/graphql.ExecutableSchema).Exec(ctx) (h)
+//@ trusted github.com/99designs/gqlgen/graphql.OneShot(resp) (h)
+//@   pure
+//@ trusted dyn:responses(ctx) (resp)
+//@ func (*Executor).DispatchOperation$1 [C03]
+//@   requires e != nil
+//@   safe
+//@   ensures calls(Exec) == 1
+//@ func (*Executor).DispatchOperation$2 [C03]
+//@   requires e != nil
+//@   safe
+//@   ensures calls(responseMiddleware) == 1
+//@ func (*Executor).DispatchOperation$3 [C03]
+//@   safe
+//@   ensures calls("dyn:responses") == 1
+//@ func (*Executor).DispatchError [C03]
+//@   requires e != nil
+//@   safe
+//@   loop 1: invariant calls(AddError) == idx1
+//@   ensures calls(responseMiddleware) == 1 && calls(AddError) == len(list)
+
+// ---------------------------------------------------------------- extension chain
+// The interceptor chain is built from the LAST extension to the FIRST (step: i decreases by one), each wrapper
+// calling its own extension's hook exactly once with a continuation that calls the previously built chain exactly
+// once - so the first registered extension is the outermost. Mutators are collected in registration order.
+//@ trusted dyn:next(ctx) (r)
+//@ trusted dyn:previous(ctx, next) (r)
+//@ trusted (github.com/99designs/gqlgen/graphql.OperationInterceptor).InterceptOperation(ctx, next) (h)
+//@ trusted (github.com/99designs/gqlgen/graphql.ResponseInterceptor).InterceptResponse(ctx, next) (r)
+//@ trusted (github.com/99designs/gqlgen/graphql.RootFieldInterceptor).InterceptRootField(ctx, next) (m)
+//@ trusted (github.com/99designs/gqlgen/graphql.FieldInterceptor).InterceptField(ctx, next) (res, err)
+//@ func processExtensions [C03]
+//@   safe
+//@   ghost lastP = 0 - 1
+//@   ghost lastC = 0 - 1
+//@   loop 1: invariant 0 - 1 <= i && i < len(exts)
+//@   loop 1: step i == prev(i) - 1
+//@   at `append(e.operationParameterMutators, p)` requires idx2 > lastP && arg1 == exts[idx2]
+//@   at `append(e.operationParameterMutators, p)` ghost lastP = idx2
+//@   at `append(e.operationContextMutators, p)` requires idx2 > lastC && arg1 == exts[idx2]
+//@   at `append(e.operationContextMutators, p)` ghost lastC = idx2
+//@   loop 2: invariant lastP < idx2 && lastC < idx2
+//@ func processExtensions$1 [C03]
+//@   ensures calls("dyn:next") == 1
+//@ func processExtensions$2 [C03]
+//@   ensures calls("dyn:next") == 1
+//@ func processExtensions$3 [C03]
+//@   ensures calls("dyn:next") == 1
+//@ func processExtensions$4 [C03]
+//@   ensures calls("dyn:next") == 1
+//@ func processExtensions$5 [C03]
+//@   ensures calls(InterceptOperation) == 1 && calls("dyn:previous") == 0
+//@ func processExtensions$6 [C03]
+//@   ensures calls("dyn:previous") == 1
+//@   at `previous(ctx, next)` requires arg1 == next
+//@ func processExtensions$7 [C03]
+//@   ensures calls(InterceptResponse) == 1 && calls("dyn:previous") == 0
+//@ func processExtensions$8 [C03]
+//@   ensures calls("dyn:previous") == 1
+//@   at `previous(ctx, next)` requires arg1 == next
+//@ func processExtensions$9 [C03]
+//@   ensures calls(InterceptRootField) == 1 && calls("dyn:previous") == 0
+//@ func processExtensions$10 [C03]
+//@   ensures calls("dyn:previous") == 1
+//@   at `previous(ctx, next)` requires arg1 == next
+//@ func processExtensions$11 [C03]
+//@   ensures calls(InterceptField) == 1 && calls("dyn:previous") == 0
+//@ func processExtensions$12 [C03]
+//@   ensures calls("dyn:previous") == 1
+//@   at `previous(ctx, next)` requires arg1 == next
+
+// (assumption: the user's error presenter and recover function do not panic themselves)
+//@ trusted (*Executor).PresentRecoveredError(ctx, err) (e)
+//@   nopanic
